@@ -272,6 +272,13 @@ def pow (params : List (Value N)) : Except NativeError (Value N) :=
   | _ :: _ => .error .wrongParameterType
   | _ => .error (.wrongParameterCount 1)
 
+/-- `int_to_hex` (src/stdlib/math.rs) -/
+def int_to_hex (params : List (Value N)) : Except NativeError (Value N) :=
+  match params with
+  | [.num value] => .ok (.str (Stdlib.hexUpperI64 (NumX.toI64 (NumOps.trunc value))))
+  | [_] => .error .wrongParameterType
+  | _ => .error (.wrongParameterCount 1)
+
 /-- `chr` (src/stdlib/string.rs) -/
 def chr (params : List (Value N)) : Except NativeError (Value N) :=
   match params with
